@@ -8,6 +8,7 @@ CONSTANT MaxLoss = 1
 CONSTANT MaxSeq = 3
 CONSTANT FixedCancel = TRUE
 CONSTANT Limit <- NoLimit
+CONSTANT PowerLocked = TRUE
 INVARIANT TypeOK
 INVARIANT WriteByOwner
 INVARIANT TxnAtomic
